@@ -60,15 +60,33 @@ pub const FAULT_KINDS: [ErrorKind; 6] = [
     ErrorKind::TimedOut,
 ];
 
+thread_local! {
+    /// The public call in progress on this thread (set by `sorter_common::call`).
+    pub static STAGE: std::cell::RefCell<String> = const { std::cell::RefCell::new(String::new()) };
+}
+
+pub fn set_stage(s: &str) {
+    STAGE.with(|st| {
+        let mut st = st.borrow_mut();
+        st.clear();
+        st.push_str(s);
+    });
+}
+
+pub fn current_stage() -> String {
+    STAGE.with(|st| st.borrow().clone())
+}
+
 /// Shared fault plan of one scenario: counts every call to a user component and fails exactly
 /// the `fail_at`-th one (1-based; 0 = never).
 pub struct Plan {
     calls: AtomicU64,
     pub fail_at: u64,
     pub kind: ErrorKind,
-    pub fired: Mutex<Option<(String, String)>>,
+    /// (component, operation, public call in progress) of the injected failure
+    pub fired: Mutex<Option<(String, String, String)>>,
     pub per_op: Mutex<BTreeMap<String, u64>>,
-    pub trace: Mutex<Vec<(String, &'static str)>>,
+    pub trace: Mutex<Vec<(String, &'static str, String)>>,
     pub keep_trace: bool,
 }
 
@@ -103,10 +121,10 @@ impl Plan {
         let k = self.calls.fetch_add(1, Ordering::SeqCst) + 1;
         if self.keep_trace {
             *self.per_op.lock().unwrap().entry(format!("{}.{}", comp_class(comp), op)).or_insert(0) += 1;
-            self.trace.lock().unwrap().push((comp_class(comp).to_string(), op));
+            self.trace.lock().unwrap().push((comp_class(comp).to_string(), op, current_stage()));
         }
         if self.fail_at != 0 && k == self.fail_at {
-            *self.fired.lock().unwrap() = Some((comp.to_string(), op.to_string()));
+            *self.fired.lock().unwrap() = Some((comp.to_string(), op.to_string(), current_stage()));
             true
         } else {
             false
